@@ -420,6 +420,7 @@ struct Ctx {
     next_edge: Cell<usize>,
     next_perkey: Cell<usize>,
     tokens: RefCell<std::collections::HashMap<(usize, i64), SubscriptionToken>>,
+    node_handlers: RefCell<std::collections::HashMap<usize, usize>>,
     foreign_node: I,
     _foreign_state: IncrState,
     inv_count: Cell<usize>,
@@ -1073,6 +1074,7 @@ impl Interp {
             next_edge: Cell::new(0),
             next_perkey: Cell::new(0),
             tokens: RefCell::new(Default::default()),
+            node_handlers: RefCell::new(Default::default()),
             foreign_node,
             _foreign_state: foreign,
             inv_count: Cell::new(0),
@@ -1257,6 +1259,42 @@ impl Interp {
                     Some(ob) => format!("read {}", show_read(&ob.try_get_value())),
                     None => "read nohandle".into(),
                 }
+            }
+            "onupdate" => {
+                // Incr::on_update: a handler on the node itself; it also hears Unnecessary
+                let h = p.nat();
+                let hid = p.int();
+                let effs = p.effs();
+                let node = self.h(h);
+                let rank = node.verif_rank();
+                let ix = {
+                    let c = ctx();
+                    let mut m = c.node_handlers.borrow_mut();
+                    let e = m.entry(rank).or_insert(0usize);
+                    *e += 1;
+                    *e - 1
+                };
+                let g = Guard::new();
+                node.on_update(move |u: incremental::NodeUpdate<&Val>| {
+                    let _g = &g;
+                    user_call();
+                    let (kind, v) = match u {
+                        incremental::NodeUpdate::Necessary(v) => ("Initialised", Some(v.clone())),
+                        incremental::NodeUpdate::Changed(v) => ("Changed", Some(v.clone())),
+                        incremental::NodeUpdate::Invalidated => ("Invalidated", None),
+                        incremental::NodeUpdate::Unnecessary => ("Unnecessary", None),
+                    };
+                    ev(format!(
+                        "nodeupd n={} ix={} hid={} {} {}",
+                        rank,
+                        ix,
+                        hid,
+                        kind,
+                        v.as_ref().map_or("-".to_string(), |v| format!("{v:?}"))
+                    ));
+                    run_effects(v.as_ref().unwrap_or(&Val::Unit), &effs);
+                });
+                "ok".into()
             }
             "subscribe" => {
                 let o = p.nat();
